@@ -1,7 +1,8 @@
-(* C08 -- proofs, part 3: the spec on the model's own observations, refutation of the code before the repair, and
-   spec-level facts (order independence of the verdict clause, when a call succeeds, tie of veq to C09's equals). *)
+(* C08 -- proofs, part 3: the spec on the model's own observations (one mock and the world of scopes), refutation of the code
+   before the repair, and spec-level facts (order independence of the verdict clause, when a call succeeds, tie of veq to C09's
+   equals, the global mock alone behaves as one mock). *)
 From Coq Require Import ZArith NArith Bool List Lia Permutation.
-From CppUVerif Require Import lib.CInt lib.Str C08_Model C08_Proofs C08_Proofs2.
+From CppUVerif Require Import lib.CInt lib.Str C08_Model C08_Proofs C08_Proofs2 C08_Scopes.
 From CppUVerif Require C09_Model C09_Proofs.
 Import ListNotations.
 Local Open Scope N_scope.
@@ -13,9 +14,18 @@ Proof. destruct v; cbn; [apply pv_eqb_refl|reflexivity]. Qed.
 Lemma list_eqb_refl {A} (eqb : A -> A -> bool) l : (forall x, eqb x x = true) -> list_eqb eqb l l = true.
 Proof. intro H. induction l; cbn; [reflexivity|]. rewrite H, IHl. reflexivity. Qed.
 
-(* the M-level statement "M passes iff the multisets (strict: the sequences) agree" for one scenario *)
+(* the M-level statement "M passes iff the multisets (strict: the sequences) agree" for one scope's scenario *)
 Definition verdict_agrees (k : canon) : Prop :=
   verdict_ok k = match fst (expected k) with None => true | Some _ => false end.
+
+Lemma proj_lift_fail o (ef : option (N * dkind)) er :
+  proj o = lift (ef, er) -> fail_ok (o_fail o) ef = true /\ o_rets o = er /\ passed_obs o = match ef with None => true | Some _ => false end.
+Proof.
+  unfold proj, lift, fail_ok, passed_obs. cbn [fst snd]. intro H. injection H as L1 L2.
+  destruct (o_fail o) as [[i fl]|]; destruct ef as [[j d]|]; try discriminate L1.
+  - inversion L1; subst. rewrite H1. rewrite N.eqb_refl, dkind_eqb_refl. auto.
+  - auto.
+Qed.
 
 (* clauses 2 and 3 of the spec hold of the model on every judged scenario (consequence of L_refines_M);
    clause 1 holds whenever M's verdict is the multiset verdict *)
@@ -24,26 +34,23 @@ Lemma run_meets_spec_partial ops :
 Proof.
   intro HV. unfold spec. destruct (parse ops) as [k|] eqn:Hp; [|reflexivity].
   destruct (judged k) eqn:Hj; [|reflexivity]. cbn [negb].
-  pose proof (L_refines_M ops k Hp Hj) as LR. specialize (HV k eq_refl Hj). unfold verdict_agrees in HV.
-  destruct (expected k) as [ef er]. unfold proj, lift in LR. cbn [fst snd] in *.
-  injection LR as L1 L2. rewrite L2, HV.
-  destruct (o_fail (run ops)) as [[i fl]|]; destruct ef as [[j d]|]; try discriminate L1.
-  - inversion L1; subst. rewrite H1. cbn. rewrite N.eqb_refl, dkind_eqb_refl. cbn. apply list_eqb_refl. apply opt_pv_eqb_refl.
-  - cbn. apply list_eqb_refl. apply opt_pv_eqb_refl.
+  destruct (L_refines_M ops k Hp Hj) as [LR LO]. specialize (HV k eq_refl Hj). unfold verdict_agrees in HV.
+  unfold expected in *. cbn [fst snd] in *. destruct (proj_lift_fail _ _ _ LR) as [A [B C]].
+  rewrite A, B, C, HV, LO. rewrite eqb_reflx, andb_true_r. cbn [andb]. apply list_eqb_refl. apply opt_pv_eqb_refl.
 Qed.
 
-(* on judged scenarios the impossible failures are impossible: neither the "This cannot happen" FAIL nor, in this fragment,
-   "expected call on object did not happen" is ever delivered, and exactly the M diagnosis is *)
+(* on judged scenarios the impossible failure is impossible: the "This cannot happen" FAIL is never delivered, and exactly the M
+   diagnosis is *)
 Lemma no_impossible_failure ops k i fl :
   parse ops = Some k -> judged k = true -> o_fail (run ops) = Some (i, fl) ->
-  f_kind fl <> FCannotHappen /\ (forall f, f_kind fl <> FObjectMissing f) /\ exists d, fst (expected k) = Some (i, d) /\ dkind_of (f_kind fl) = Some d.
+  f_kind fl <> FCannotHappen /\ exists d, fst (expected k) = Some (i, d) /\ dkind_of (f_kind fl) = Some d.
 Proof.
-  intros Hp Hj Hf. pose proof (L_refines_M ops k Hp Hj) as LR. unfold proj, lift in LR. rewrite Hf in LR.
-  injection LR as L1 _. destruct (fst (expected k)) as [[j d]|]; [|discriminate]. inversion L1; subst.
-  split; [intro X; rewrite X in H1; discriminate|]. split; [intros f X; rewrite X in H1; discriminate|]. exists d. auto.
+  intros Hp Hj Hf. destruct (L_refines_M ops k Hp Hj) as [LR _]. unfold proj, lift, expected in *. cbn [fst snd] in *. rewrite Hf in LR.
+  injection LR as L1 _. destruct (mr_fail (expected_res k)) as [[j d]|]; [|discriminate]. inversion L1; subst.
+  split; [intro X; rewrite X in H1; discriminate|]. exists d. auto.
 Qed.
 
-(* a call is consumed iff some still-open expectation is exactly the call (same function, same parameter set) *)
+(* a call is consumed iff some still-open expectation is exactly the call (same function, object, parameter set, outputs) *)
 Lemma call_succeeds_iff f ps o xs :
   (exists xs' v, consume f ps o xs = Some (xs', v)) <-> (exists x, In x xs /\ x_open x = true /\ matches (x_e x) f ps = true).
 Proof.
@@ -55,6 +62,17 @@ Proof.
     revert E. clear - Hx Ho Hm. induction xs as [|y r IH]; [destruct Hx|]. cbn. destruct Hx as [Hx|Hx].
     + subst y. rewrite Ho, Hm. discriminate.
     + destruct (x_open y && matches (x_e y) f ps); [discriminate|]. destruct (consume f ps o r) as [[r' w]|]; [discriminate|]. intros _. apply IH; auto.
+Qed.
+(* ... and what it hands back is that expectation's return value and output bytes *)
+Lemma call_returns_consumed ign kn st c st' rv :
+  m_call ign kn st c = inl (st', rv) -> ign && negb (kn (sc_f c)) = false -> s_pend st' = None ->
+  exists e, consume (sc_f c) (sc_items c) (s_order st + 1) (s_xs st) = Some (s_xs st', e) /\
+            fst rv = (if sc_want c then Some (sx_ret e) else None) /\ snd rv = out_bytes e (sc_items c).
+Proof.
+  unfold m_call. destruct (s_pend st); [discriminate|]. intros H IG. rewrite IG in H.
+  destruct (consume (sc_f c) (sc_items c) (s_order st + 1) (s_xs st)) as [[xs' e]|].
+  - inversion H; subst. intros _. exists e. auto.
+  - destruct (deviation _ _ _) as [d df]. destruct (df && negb (sc_want c)); [|discriminate]. inversion H; subst. discriminate.
 Qed.
 
 (* the verdict clause does not depend on the order of the actual calls *)
@@ -83,12 +101,62 @@ Proof.
     + intro X. apply negb_true_iff in Ha. rewrite existsb_false in Ha. specialize (Ha 0 X). discriminate Ha.
 Qed.
 
+(* ------------------------------------------------------------------ the world of scopes meets its spec *)
+Lemma forallb_true_iff {A} (p : A -> bool) l : forallb p l = true <-> forall x, In x l -> p x = true.
+Proof. apply forallb_forall. Qed.
+
+Lemma runw_meets_specw_partial ops :
+  (forall k s, parsew ops = Some k -> judgedw k = true -> In s (0 :: scopes_of k) -> verdict_agrees (scope_canon k s)) ->
+  specw ops (runw ops) = true.
+Proof.
+  intro HV. unfold specw. destruct (parsew ops) as [k|] eqn:Hp; [|reflexivity].
+  destruct (judgedw k) eqn:Hj; [|reflexivity]. cbn [negb].
+  destruct (W_refines_M ops k Hp Hj) as [LR LO]. destruct (proj_lift_fail _ _ _ LR) as [A [B C]].
+  rewrite A, B, C, LO.
+  assert (V : verdictw_ok k = match mr_fail (expectedw k) with None => true | Some _ => false end).
+  { unfold verdictw_ok. destruct (mr_fail (expectedw k)) eqn:F.
+    - destruct (forallb (fun s => verdict_ok (scope_canon k s)) (0 :: scopes_of k)) eqn:X; [|reflexivity]. exfalso.
+      assert (Y : mr_fail (expectedw k) = None); [|congruence].
+      apply verdict_scopes. intros s Hs. rewrite forallb_forall in X. specialize (X s Hs). rewrite (HV k s eq_refl Hj Hs) in X.
+      unfold expected in X. cbn [fst] in X. destruct (mr_fail (expected_res (scope_canon k s))); [discriminate X|reflexivity].
+    - apply forallb_forall. intros s Hs. rewrite (HV k s eq_refl Hj Hs). unfold expected. cbn [fst].
+      rewrite (proj1 (verdict_scopes k) F s Hs). reflexivity. }
+  rewrite V, eqb_reflx, andb_true_r. cbn [andb]. apply list_eqb_refl. apply opt_pv_eqb_refl.
+Qed.
+
+(* the verdict over the scopes: the model passes a judged scenario iff, in M, every scope passes its own scenario *)
+Lemma verdict_every_scope ops k :
+  parsew ops = Some k -> judgedw k = true ->
+  (o_fail (runw ops) = None <-> forall s, In s (0 :: scopes_of k) -> fst (expected (scope_canon k s)) = None).
+Proof.
+  intros Hp Hj. destruct (W_refines_M ops k Hp Hj) as [LR _]. destruct (proj_lift_fail _ _ _ LR) as [_ [_ C]].
+  unfold passed_obs in C. rewrite <- verdict_scopes. destruct (o_fail (runw ops)); destruct (mr_fail (expectedw k)); try discriminate C; split; auto; discriminate.
+Qed.
+
+(* ------------------------------------------------------------------ the global mock alone is one mock *)
+Lemma stepw_global w o : w_kids w = [] ->
+  stepw true w (0, o) = match step true (w_g w) o with inr fl => inr fl | inl (g, r) => inl ({| w_g := g; w_kids := [] |}, r) end.
+Proof.
+  intro K. destruct w as [g kids]. cbn in K. subst kids. destruct o as [n f ps outs obj ret ign|f its want| | | | | | |]; cbn; try reflexivity.
+  - unfold check_world, check_expectations, finish_all, last_ok_all, left_all, ooo_all, all_exps. cbn.
+    destruct (finish_last g) as [g'|]; [|reflexivity]. cbn. rewrite !orb_false_r, andb_true_r, app_nil_r.
+    destruct (last_ok g' && unfulfilled (m_exps g')); [reflexivity|]. destruct (existsb e_ooo (m_exps g')); reflexivity.
+  - unfold calls_left, finish_all, left_all. cbn. destruct (finish_last g) as [g'|]; [|reflexivity]. cbn. rewrite orb_false_r. reflexivity.
+Qed.
+Lemma runw_global_from : forall ops g i a, runw_from true {| w_g := g; w_kids := [] |} i (map (pair 0) ops) a = run_from true g i ops a.
+Proof.
+  induction ops as [|o r IH]; intros g i a; [reflexivity|]. cbn [map runw_from run_from]. rewrite stepw_global by reflexivity. cbn [w_g].
+  destruct (step true g o) as [[g' rv]|]; [apply IH|reflexivity].
+Qed.
+Lemma runw_global ops : runw (map (pair 0) ops) = run ops.
+Proof. apply runw_global_from. Qed.
+
 (* ------------------------------------------------------------------ the code before the repair (f9780ee) violated the property *)
 Definition witness_old : list op :=
-  [ OExpect 1 0 [(0, PInt TInt 1%Z); (1, PInt TInt 2%Z)] None false;
-    OExpect 1 0 [(0, PInt TInt 1%Z); (1, PInt TInt 3%Z)] None false;
-    OCall 0 [(0, PInt TInt 1%Z); (1, PInt TInt 3%Z)] false;
-    OCall 0 [(1, PInt TInt 2%Z)] false;
+  [ OExpect 1 0 [(0, PInt TInt 1%Z); (1, PInt TInt 2%Z)] [] None None false;
+    OExpect 1 0 [(0, PInt TInt 1%Z); (1, PInt TInt 3%Z)] [] None None false;
+    OCall 0 [IIn 0 (PInt TInt 1%Z); IIn 1 (PInt TInt 3%Z)] false;
+    OCall 0 [IIn 1 (PInt TInt 2%Z)] false;
     OCheck ].
 Definition run_old_meets_spec_stmt : Prop := forall ops, spec ops (run_old ops) = true.
 Lemma run_old_refuted : ~ run_old_meets_spec_stmt.
@@ -99,7 +167,24 @@ Proof. vm_compute. split; [reflexivity|discriminate]. Qed.
 
 (* hypotheses of the theorems are satisfiable *)
 Definition example_ops : list op :=
-  [ OStrict; OExpect 2 0 [(0, PInt TInt 1%Z)] (Some (PInt TLong 7%Z)) false; OExpect 1 1 [] None false;
-    OCall 0 [(0, PInt TUInt 1%Z)] true; OCall 0 [(0, PInt TInt 1%Z)] false; OCall 1 [] true; OCheck ].
+  [ OStrict; OExpect 2 0 [(0, PInt TInt 1%Z)] [] None (Some (PInt TLong 7%Z)) false; OExpect 1 1 [] [] None None false;
+    OCall 0 [IIn 0 (PInt TUInt 1%Z)] true; OCall 0 [IIn 0 (PInt TInt 1%Z)] false; OCall 1 [] true; OCheck ].
 Example example_judged : exists k, parse example_ops = Some k /\ judged k = true /\ verdict_agrees k /\ o_fail (run example_ops) = None.
 Proof. eexists. split; [reflexivity|]. split; [reflexivity|]. split; vm_compute; reflexivity. Qed.
+(* two scopes, objects and outputs: mock("s1") read() on two devices, output passed before and after the object; mock("s2") strict *)
+Definition buf8 : list N := [0; 0; 0; 0; 0; 0; 0; 0].
+Definition example_opsw : list (N * op) :=
+  [ (2, OStrict); (0, OIgnoreOtherCalls);
+    (1, OExpect 1 0 [] [(0, [161; 162])] (Some 4096%Z) (Some (PInt TInt 1%Z)) false);
+    (1, OExpect 1 0 [] [(0, [177; 178; 179])] (Some 4104%Z) (Some (PInt TInt 2%Z)) false);
+    (2, OExpect 1 0 [] [] None None false); (2, OExpect 1 1 [] [] None None false);
+    (1, OCall 0 [IOut 0 buf8; IObj 4104%Z] true); (2, OCall 0 [] false); (0, OCall 9 [] false);
+    (1, OCall 0 [IObj 4096%Z; IOut 0 buf8] true); (2, OCall 1 [] false); (0, OCheck) ].
+Example example_judgedw :
+  exists k, parsew example_opsw = Some k /\ judgedw k = true /\ (forall s, In s (0 :: scopes_of k) -> verdict_agrees (scope_canon k s)) /\
+            o_fail (runw example_opsw) = None /\ o_rets (runw example_opsw) = [Some (PInt TInt 2%Z); Some (PInt TInt 1%Z)] /\
+            o_outs (runw example_opsw) = [[177; 178; 179; 0; 0; 0; 0; 0]; [161; 162; 0; 0; 0; 0; 0; 0]].
+Proof.
+  eexists. split; [reflexivity|]. split; [reflexivity|]. split; [|vm_compute; auto].
+  intros s Hs. vm_compute in Hs. destruct Hs as [<-|[<-|[<-|[]]]]; vm_compute; reflexivity.
+Qed.
